@@ -72,13 +72,13 @@ FORMS = [
     ('expr-hq', 'HTML', '<dtml-var "x" html_quote>', True),
     ('name-hq', 'HTML', '<dtml-var name=x html_quote>', True),
     ('ent-mod', 'HTML', '&dtml.html_quote-x;', True),
-    ('full-size', 'HTML', '<dtml-var x html_quote size=99>', True),
+    ('full-size', 'HTML', '<dtml-var x html_quote size=99999>', True),
     ('full-null', 'HTML', '<dtml-var x html_quote null="N">', True),
     ('full-missing', 'HTML', '<dtml-var x html_quote missing="M">', True),
-    ('full-etc', 'HTML', '<dtml-var x size=99 etc="." html_quote>', True),
-    ('epfs-full', 'String', '%(x html_quote size=99)s', True),
+    ('full-etc', 'HTML', '<dtml-var x size=99999 etc="." html_quote>', True),
+    ('epfs-full', 'String', '%(x html_quote size=99999)s', True),
     ('fmt-hq', 'HTML', '<dtml-var x fmt=html-quote>', True),
-    ('fmt-hq-size', 'HTML', '<dtml-var x fmt=html-quote size=99>', True),
+    ('fmt-hq-size', 'HTML', '<dtml-var x fmt=html-quote size=99999>', True),
     ('text-around', 'HTML', '[&dtml-x;|<dtml-var x html_quote>]', True),
     ('after-clean-ent', 'HTML', '&dtml-c;|&dtml-x;', True),
     ('after-clean-hq', 'HTML', '<dtml-var c html_quote>|<dtml-var x '
@@ -89,22 +89,22 @@ FORMS = [
     ('in-loop', 'HTML', '<dtml-in two>&dtml-c;|&dtml-x;,</dtml-in>', True),
     # insertions inside block bodies (sections are parsed on their own) and
     # inside nested blocks, fast path and full path
-    ('if-full', 'HTML', '<dtml-if c><dtml-var x html_quote size=99></dtml-if>',
+    ('if-full', 'HTML', '<dtml-if c><dtml-var x html_quote size=99999></dtml-if>',
      True),
     ('else-missing', 'HTML', '<dtml-if n>no<dtml-else><dtml-var x html_quote '
      'missing="M"></dtml-if>', True),
     ('if-fmt', 'HTML', '<dtml-if c><dtml-var x fmt=html-quote></dtml-if>',
      True),
-    ('in-full', 'HTML', '<dtml-in two><dtml-var x html_quote size=99>,'
+    ('in-full', 'HTML', '<dtml-in two><dtml-var x html_quote size=99999>,'
      '</dtml-in>', True),
     ('nested-ent', 'HTML', '<dtml-if c><dtml-unless n>&dtml-x;</dtml-unless>'
      '</dtml-if>', True),
     ('nested-hq', 'HTML', '<dtml-let y=c><dtml-if y><dtml-var x html_quote>'
      '</dtml-if></dtml-let>', True),
-    ('try-full', 'HTML', '<dtml-try><dtml-var x html_quote size=99>'
+    ('try-full', 'HTML', '<dtml-try><dtml-var x html_quote size=99999>'
      '<dtml-except>E</dtml-try>', True),
     ('with-fmt', 'HTML', '<dtml-with "_.namespace(y=1)"><dtml-var x '
-     'fmt=html-quote size=99></dtml-with>', True),
+     'fmt=html-quote size=99999></dtml-with>', True),
     # secondary bodies: the else of a loop over nothing, of a batch, of the
     # previous / next forms
     ('in-else-ent', 'HTML', '<dtml-in none>n<dtml-else>&dtml-x;|<dtml-var x '
@@ -117,7 +117,7 @@ FORMS = [
      '&dtml-x;|&dtml-x;</dtml-in>', True),
     ('try-except-ent', 'HTML', '<dtml-try><dtml-var nowhere><dtml-except>'
      '&dtml-x;|&dtml-x;</dtml-try>', True),
-    ('epfs-if-full', 'String', '%(if c)[%(x html_quote size=99)s%(if c)]',
+    ('epfs-if-full', 'String', '%(if c)[%(x html_quote size=99999)s%(if c)]',
      True),
     # variables whose names are the one-letter codes of compiled blocks
     ('plain-named-h', 'HTML', '<dtml-var h>', False),
@@ -127,7 +127,7 @@ FORMS = [
     ('plain', 'HTML', '<dtml-var x>', False),
     ('plain-epfs', 'String', '%(x)s', False),
     ('plain-expr', 'HTML', '<dtml-var "x">', False),
-    ('plain-full', 'HTML', '<dtml-var x size=99>', False),
+    ('plain-full', 'HTML', '<dtml-var x size=99999>', False),
 ]
 FORM_BY_ID = {f[0]: f for f in FORMS}
 
@@ -315,6 +315,9 @@ def cases(tier):
         else:
             for a, b in itertools.product(range(len(ALPHA)), repeat=2):
                 yield {'kind': 'str', 'n': n, 'pre': [a, b]}
+    yield {'kind': 'long'}
+    yield {'kind': 'long', 'enc': 'utf-8'}
+    yield {'kind': 'long', 'enc': 'latin-1'}
     for ci in range(len(CARRIERS)):
         yield {'kind': 'carrier', 'c': ci}
         for enc in ('utf-8', 'latin-1'):
@@ -338,7 +341,27 @@ def values(case):
     if 'only' in case:
         yield case['only']
         return
-    if k in ('cp', 'bytes-cp'):
+    if k == 'long':
+        # scale: many characters to escape, one of them far into a long
+        # text, several lines (every kind of line separator)
+        for ch in '&<>"\'':
+            for n in (31, 32, 33, 34, 63, 64, 65, 100, 257, 1000, 4097):
+                yield ch * n
+        mixed = '&<>"\'a \xe9'
+        for n in (5, 6, 7, 10, 40, 150):
+            yield mixed * n
+        for L in (33, 65, 100, 1000):
+            for p in (0, 1, 31, 32, 33, 63, 64, 65, L - 2, L - 1):
+                if p < L:
+                    for ch in '&<\'':
+                        yield 'x' * p + ch + 'x' * (L - p - 1)
+        for sep in ('\n', '\r\n', '\r', '\x0b', '\x0c', '\x1c', '\x85',
+                    '\u2028', '\u2029'):
+            yield 'first line' + sep + '<b> & "q"'
+            yield sep + '&'
+            yield 'a' + sep + "'" + sep + '<'
+            yield '<' + sep + 'plain'
+    elif k in ('cp', 'bytes-cp'):
         for cp in range(case['lo'], case['hi']):
             yield chr(cp)
     elif k in ('carrier', 'rel-carrier'):
@@ -472,7 +495,7 @@ def run(case):
                     judge(res, case, form, value,
                           render(form, raw, enc, False, variant), exp, enc,
                           variant)
-            if quoting and case['kind'] in ('str', 'carrier'):
+            if quoting and case['kind'] in ('str', 'carrier', 'long'):
                 # the same on a template object that has rendered a
                 # tainted value before
                 got2 = render(form, raw, enc, pre=True)
